@@ -948,12 +948,16 @@ class Parser:
                     self.err("await unsupported")
                 else:
                     name = self.ident()
+                    targs = None
                     if self.at("::"):
                         self.i += 1
+                        ta = self.i
                         self.skip_generics()
+                        # the turbofish is kept as text (`parse::<u8>()` -> "<u8>") for vocabulary callables
+                        targs = "".join(x.text for x in self.toks[ta:self.i])
                     if self.at("("):
                         args = self.call_args()
-                        e = N("mcall", recv=e, name=name, args=args)
+                        e = N("mcall", recv=e, name=name, args=args, targs=targs)
                     else:
                         e = N("field", e=e, name=name)
             elif self.at("("):
